@@ -413,7 +413,24 @@ def any_all(eng, st, it, is_any):
     raise Unsupported("any/all over a symbolic non-generator")
 
 
+def _setcomp_flat1(eng, node, st, fid):
+    """{elt for x in xs for y in <1-tuple expression of x>}: the inner iterable is a tuple of arity ONE, so the flattening has exactly
+    one element per outer element (VGenFlat with a single part); other arities stay unsupported"""
+    g0, g1 = node.generators
+
+    def mk(s, seq):
+        box = {}
+        i, cond, vals, extra = _element(eng, [node.elt], g0, s, fid, seq, inner=(g1, 0, box))
+        if box.get("arity") != 1:
+            raise Unsupported("two-generator set comprehension whose inner iterable is not a 1-tuple")
+        s = _with_extras(s, seq, i, cond, extra)
+        return set_of_gen(eng, s, VGen(seq, i, cond, vals[0]))
+    return eng.bind(_source_seq(eng, st, fid, g0), mk)
+
+
 def setcomp(eng, node, st, fid):
+    if len(node.generators) == 2 and not any(g.is_async for g in node.generators):
+        return _setcomp_flat1(eng, node, st, fid)
     gen = _single_gen(node)
 
     def mk(s, seq):
